@@ -1,8 +1,11 @@
-"""The other download/upload front-ends of the package, driven sequentially
-(one canonical schedule): legacy `S3Transfer` and the process-pool downloader's
-submitter + worker loop (in-process, no threads).  Thread interleavings of the
-process pool are explored in C19; those of the legacy classes are not explored
-(they block in queue.Queue, see DESIGN.md section 4).
+"""The other download/upload front-ends of the package: legacy `S3Transfer` and the
+process-pool downloader's submitter + worker loop (in-process).  Sequential mode
+(one canonical schedule, exhaustive over inputs and faults) for both; the legacy
+multipart classes additionally in *threaded* mode: their `threading`, `queue` and
+`concurrent.futures` bindings are replaced by the scheduler's (the ShutdownQueue
+class is re-based onto the controlled queue), so part workers, IO thread and the
+waiting coordinator are explored like the manager's threads.  Thread interleavings
+of the process pool are explored in C19.
 """
 import concurrent.futures
 import functools
@@ -55,6 +58,31 @@ class InlineExecutor(concurrent.futures.Executor):
 
 
 _RealMU, _RealMD = legacy.MultipartUploader, legacy.MultipartDownloader
+
+
+class _NS:
+    def __init__(self, **kw):
+        self.__dict__.update(kw)
+
+
+import queue as _queue  # noqa: E402
+
+_REAL_BINDINGS = (legacy.threading, legacy.queue, legacy.concurrent, legacy.ShutdownQueue.__bases__)
+
+
+def _bind_legacy_threads(on):
+    """threaded mode: the legacy module's threads, queue and concurrent.futures run under the scheduler"""
+    if on:
+        legacy.threading = detsched.SHIM
+        legacy.queue = _NS(Queue=detsched.DetLegacyQueue, Empty=_queue.Empty, Full=_queue.Full)
+        legacy.concurrent = _NS(futures=_NS(
+            wait=detsched.det_wait, FIRST_EXCEPTION=detsched.FIRST_EXCEPTION, FIRST_COMPLETED=detsched.FIRST_COMPLETED,
+            ALL_COMPLETED=detsched.ALL_COMPLETED, ThreadPoolExecutor=detsched.DetExecutor,
+            CancelledError=concurrent.futures.CancelledError, TimeoutError=concurrent.futures.TimeoutError))
+        legacy.ShutdownQueue.__bases__ = (detsched.DetLegacyQueue,)
+    else:
+        legacy.threading, legacy.queue, legacy.concurrent = _REAL_BINDINGS[:3]
+        legacy.ShutdownQueue.__bases__ = _REAL_BINDINGS[3]
 
 
 class FaultyLegacyOSUtils(legacy.OSUtils):
@@ -123,7 +151,10 @@ def run_frontend(scn, prefix=(), scratch=None, monitor=None):
     InlineExecutor._n = 0
     statereset.register(pp)
     statereset.restore()
-    s = Sched(prefix=prefix)
+    threaded = bool(scn.get('threaded'))
+    s = Sched(prefix=prefix, horizon=20000) if threaded else Sched(prefix=prefix)
+    if threaded:
+        s.nopreempt = detsched.COARSE_SKIP
     R = {}
     f = scn.get('faults') or {}
     plan = FaultPlan(sites=f.get('sites', ()), retryable_kinds=tuple(f.get('retryable_kinds', (0,))),
@@ -149,11 +180,13 @@ def run_frontend(scn, prefix=(), scratch=None, monitor=None):
         try:
             if scn['frontend'] == 'legacy':
                 cfg = legacy.TransferConfig(multipart_threshold=scn['t'], multipart_chunksize=scn['c'],
-                                            num_download_attempts=scn.get('attempts', 2), max_concurrency=2)
+                                            num_download_attempts=scn.get('attempts', 2),
+                                            max_concurrency=scn.get('conc', 2), max_io_queue=scn.get('ioq', 100))
                 osu = FaultyLegacyOSUtils(s, fs_sites)
                 R['osutil'] = osu
-                legacy.MultipartUploader = functools.partial(_RealMU, executor_cls=InlineExecutor)
-                legacy.MultipartDownloader = functools.partial(_RealMD, executor_cls=InlineExecutor)
+                ex_cls = detsched.DetExecutor if threaded else InlineExecutor
+                legacy.MultipartUploader = functools.partial(_RealMU, executor_cls=ex_cls)
+                legacy.MultipartDownloader = functools.partial(_RealMD, executor_cls=ex_cls)
                 tr = legacy.S3Transfer(client, cfg, osu)
                 prog = []
                 R['progress'] = prog
@@ -197,7 +230,19 @@ def run_frontend(scn, prefix=(), scratch=None, monitor=None):
         finally:
             legacy.MultipartUploader, legacy.MultipartDownloader = _RealMU, _RealMD
     try:
-        s.run_inline(main)
+        if threaded:
+            _bind_legacy_threads(True)
+            try:
+                s.run(main)
+            finally:
+                _bind_legacy_threads(False)
+            if s.outcome not in ('ok', 'deadlock'):
+                raise detsched.HarnessError(f'legacy threaded run ended with {s.outcome}: {s.outcome_detail}')
+            crashed = [t for t in s.threads if t.exc is not None]
+            if crashed and s.outcome == 'ok':
+                raise detsched.HarnessError(f'legacy threaded run: thread {crashed[0].name} crashed: {crashed[0].exc!r}')
+        else:
+            s.run_inline(main)
         if s.outcome == 'deadlock':
             R['outcome'] = 'deadlock'
             R['exc'] = s.outcome_detail
@@ -236,7 +281,11 @@ def judge(scn, R, want):
     fatal = [f for f in inj if not f['retryable']]
     attempts = scn.get('attempts', 2)
     if R['outcome'] == 'deadlock':
+        # (legacy, threaded: the hang its own source comment admits - a failed IO thread leaves
+        #  producers blocked on a full queue; no listed property speaks about the legacy classes'
+        #  termination, and the end-state clauses below presuppose that the call returned)
         out.append((f'C19:{fe}:never-done', str(R.get('exc'))))
+        return [(s_, m) for s_, m in out if want is None or s_.startswith(want)]
     if op == 'download':
         if R['outcome'] == 'ok':
             if R['dest'] != R['expected']:
@@ -254,6 +303,9 @@ def judge(scn, R, want):
             if n > attempts:
                 out.append((f'C03:{fe}:too-many-attempts', f'{n} GetObject for range {r}, budget {attempts}'))
         # C06 end state
+        if R['dest'] is not None and R['dest'] != R['expected'] and R['dest'] != pre_b:
+            out.append((f'C06:{fe}:partial-content-published',
+                        f'after the call (outcome {R["outcome"]}) the destination holds {R["dest"]!r}: neither the previous content {pre_b!r} nor the object {R["expected"]!r}'))
         names = set(R['listing'])
         allowed = {'dst'} if (R['outcome'] == 'ok' or pre is not None) else set()
         if R['outcome'] != 'ok' and R['dest'] is not None and pre is None:
@@ -390,6 +442,27 @@ def download_jobs(tier, want, faults=True, monitor_fs=False, pre=(None,)):
                 jobs.append({'name': f'{fe} download retryable x2 pre={p_}', 'bound': 2 if tier == 'quick' else 3, 'want': want,
                              'monitor_fs': monitor_fs, 'max_execs': 200000,
                              'scns': [dict(sc, faults={'sites': ['stream:retryable', 'stream:short']}) for sc in scns]})
+    # the legacy ranged downloader with its real threads (part workers, IO thread, coordinator
+    # waiting on both) under the scheduler: schedules x one fault
+    q = tier == 'quick'
+    for p_ in pre:
+        for ioq in (1, 100):
+            scns = [dict(frontend='legacy', op='download', size=size, t=t_, c=c_, attempts=2, io=2, threaded=True,
+                         ioq=ioq, conc=conc, preexisting=p_)
+                    for size, t_, c_, conc in ((5, 4, 2, 2), (6, 3, 3, 2), (5, 1, 2, 1))]
+            jobs.append({'name': f'legacy threaded download plain ioq={ioq} pre={p_}', 'scns': scns,
+                         'bound': {'sched': 2 if q else 3}, 'want': want, 'monitor_fs': monitor_fs, 'max_execs': 300000})
+            if faults:
+                fs_ = {'sites': ['s3:', 'stream:retryable', 'stream:fatal', 'fs:open', 'fs:write', 'fs:close', 'fs:rename', 'fs:seek']}
+                jobs.append({'name': f'legacy threaded download fault ioq={ioq} pre={p_}',
+                             'scns': [dict(sc, faults=fs_) for sc in scns],
+                             'bound': {'sched': 1, 'env': 1} if q else {'sched': 2, 'env': 1}, 'want': want,
+                             'monitor_fs': monitor_fs, 'max_execs': 300000})
+                if not q:
+                    jobs.append({'name': f'legacy threaded download two faults ioq={ioq} pre={p_}',
+                                 'scns': [dict(sc, faults=fs_) for sc in scns[:2]],
+                                 'bound': {'sched': 1, 'env': 2}, 'want': want,
+                                 'monitor_fs': monitor_fs, 'max_execs': 300000})
     return jobs
 
 
@@ -404,6 +477,16 @@ def upload_jobs(tier, want, faults=True):
         scns = [dict(frontend='legacy', op='upload', size=size, t=t_, c=c_, faults={'sites': ['s3:', 'body:retry']})
                 for size, t_, c_ in ((5, 4, 2), (3, 4, 2), (6, 3, 3))]
         jobs.append({'name': 'legacy upload faults', 'scns': scns, 'bound': 1 if tier == 'quick' else 2, 'want': want})
+    # the legacy multipart uploader with its real part threads under the scheduler
+    scns = [dict(frontend='legacy', op='upload', size=size, t=t_, c=c_, threaded=True, conc=2)
+            for size, t_, c_ in ((5, 4, 2), (6, 3, 3))]
+    jobs.append({'name': 'legacy threaded upload plain', 'scns': scns, 'bound': {'sched': 2 if tier == 'quick' else 3},
+                 'want': want, 'max_execs': 300000})
+    if faults:
+        jobs.append({'name': 'legacy threaded upload fault',
+                     'scns': [dict(sc, faults={'sites': ['s3:', 'body:retry']}) for sc in scns],
+                     'bound': {'sched': 1, 'env': 1} if tier == 'quick' else {'sched': 2, 'env': 1}, 'want': want,
+                     'max_execs': 300000})
     return jobs
 
 
